@@ -231,6 +231,10 @@ def run(ctx, rec):
             case = {"kind": "variant", "label": label, "module": mname, "name": N, "collider": kind, "declared_first": first,
                     "why": why, "design": v, "flags": {"collider": kind, "target": why.split(" of ")[0]}}
             judge(rec, f"{label} / {mname}: designer {kind} named '{N}' ({why})", v, real, case)
+    if not ctx.quick and ctx.shard == 0:
+        from .. import suite
+
+        suite.run_suite(rec, "name", ["name-capture"])
     rec.exhaustive = False
 
 
